@@ -81,7 +81,7 @@ int open_client_fds() {
 }
 
 std::string fnv64(const std::string& s) {
-    std::uint64_t h = 1469598103934665603ull;
+    std::uint64_t h = 14695981039346656037ull;
     for (unsigned char ch : s) { h ^= ch; h *= 1099511628211ull; }
     char buf[17];
     std::snprintf(buf, sizeof buf, "%016llx", static_cast<unsigned long long>(h));
@@ -108,12 +108,12 @@ bool wait_readable(int fd) {
 
 // read exactly n bytes from the client socket of c (they are known to have been sent)
 void read_exact(Client& c, std::size_t n) {
-    std::string buf(65536, '\0');
+    static char buf[65536];
     while (n > 0 && c.fd >= 0) {
         if (!wait_readable(c.fd)) break;
-        const auto got = ::recv(c.fd, buf.data(), std::min(n, buf.size()), 0);
+        const auto got = ::recv(c.fd, buf, std::min(n, sizeof buf), 0);
         if (got <= 0) break;
-        c.rx.append(buf.data(), static_cast<std::size_t>(got));
+        c.rx.append(buf, static_cast<std::size_t>(got));
         n -= static_cast<std::size_t>(got);
     }
 }
